@@ -123,6 +123,13 @@ def check_one(chk, rep, repo, cls, eff):
     from ..common import require_scalar_fragment
     require_scalar_fragment(w, w.entry.qual)
     scans = find_knn_scans(w)
+    # the number of neighbours consulted is a property of the model: it must not depend on the batch being predicted
+    for sc0 in scans:
+        dep = [t for t in subterms(sc0.slot) if t[0] == "new" and t[1] in ("Subgraph", "KNNSubgraph")] + \
+              [t for t in subterms(sc0.slot) if t[0] == "param"]
+        rep.fn("NI-k", fn, "the number of neighbours does not depend on the query batch", not dep,
+               f"k is '{show(sc0.slot)[:100]}': it reads the prediction subgraph / the arguments, so the same sample is "
+               "classified with another k in a batch of another size", line=sc0.per.line)
     scratch = {}
     for ev in w.events:
         if ev.kind == "store" and per.lid in ev.loops:
@@ -159,7 +166,8 @@ def check_one(chk, rep, repo, cls, eff):
                        "" if t == x else "a result is stored on a query node other than the one being predicted")
     run_kinds(rep, w)
     # (4) result order
-    rets = [e for e in w.events if e.kind == "return" and e.fn is w.entry]
+    from ..rules_premise import main_returns
+    rets = main_returns(w)
     okr = False
     if len(rets) == 1:
         v = rets[0].value
